@@ -52,6 +52,11 @@ type Sched struct {
 	// instead - change points biased towards the windows the properties are about.
 	PauseAt   map[string]bool
 	PauseOdds int
+	// PauseBudget > 0 bounds the number of site-biased demotions per run (as PCT
+	// bounds its change points): once spent, a demoted task stays below the
+	// others until they block or finish, however many pause sites they cross.
+	PauseBudget int
+	pausesDone  int
 	pct       bool
 	pctPrio   map[int]int
 	pctChange map[int]bool
@@ -163,6 +168,9 @@ func (s *Sched) BeforeLock(l interface {
 	if curGID() == s.root {
 		return
 	}
+	// Every hooked lock acquisition is a scheduling point, contended or not: a
+	// task can be preempted between releasing one lock and taking the next.
+	s.Yield(nil, "lock.pre")
 	for !l.TryLock() {
 		if s.pass.Load() {
 			return
@@ -268,7 +276,8 @@ func (s *Sched) StepAny() bool {
 	if s.pctChange[s.Steps] {
 		s.pctLow--
 		s.pctPrio[best.ID] = s.pctLow
-	} else if s.PauseOdds > 0 && s.PauseAt[best.Site] && len(en) > 1 && s.Choose(s.PauseOdds) == 0 {
+	} else if s.PauseOdds > 0 && s.PauseAt[best.Site] && len(en) > 1 && (s.PauseBudget == 0 || s.pausesDone < s.PauseBudget) && s.Choose(s.PauseOdds) == 0 {
+		s.pausesDone++
 		s.pctLow--
 		s.pctPrio[best.ID] = s.pctLow
 		// re-pick once among the others
